@@ -73,6 +73,10 @@ func StatusFilter(status rspb.Status) FilterFunc {
 		if rls == nil {
 			return true
 		}
+		if rls.Info == nil {
+			// a stored record whose body decodes but has no info object
+			return false
+		}
 		return rls.Info.Status == status
 	})
 }
